@@ -579,6 +579,7 @@ pub fn check(property: &str, tier: &str, top: u64) -> i32 {
             harness_errors.push(format!("violation {rule} has no replay file"));
         }
     }
+    let mut workers_lost = 0u64;
     // worker crashes / hangs: rebuild the replay file from the seed and confirm
     for ((engine_name, profile), run, why) in &crashes {
         let engine = engines::engine_by_name(engine_name);
@@ -615,6 +616,13 @@ pub fn check(property: &str, tier: &str, top: u64) -> i32 {
                 } else {
                     harness_errors.push(format!("run {run} of {profile}: {detail} (a real hang is decided by the C18 check)"));
                 }
+            }
+            // the worker was killed from outside (SIGKILL: the kernel's OOM killer, an operator)
+            // and the run it was executing comes out clean when executed again on its own: the
+            // run is accounted for, the loss of the worker is not a property of the code
+            None if why.contains("signal: 9") => {
+                workers_lost += 1;
+                eprintln!("note: run {run} of {profile}: {why}; the run was executed again on its own and is clean");
             }
             other => harness_errors.push(format!("run {run} of {profile}: {why}; not reproduced (got {other:?})")),
         }
@@ -737,6 +745,7 @@ pub fn check(property: &str, tier: &str, top: u64) -> i32 {
             "violating_runs": violations_total,
             "known_findings_seen": known_lines.len(),
             "regression_replays_executed": corpus_replayed,
+            "workers_killed_from_outside_runs_reexecuted": workers_lost,
             "harness_errors": harness_errors,
             "fault_kinds_fired": faults,
             "buggify_fired": fail_hits,
